@@ -107,35 +107,42 @@ Qed.
 
 (* ================================================================== chunks of a text followed by more text *)
 Lemma chunks_aux_open P : forall cur b,
-  (P = EmptyString -> cur <> EmptyString /\ b = false) -> (P <> EmptyString -> ends_nonblank P = true) ->
-  exists init c', c' <> EmptyString /\ forall tail, chunks_aux cur b (P ++ tail) = (init ++ chunks_aux c' false tail)%list.
+  (P = EmptyString -> cur <> EmptyString /\ b = false /\ is_blank cur = false) ->
+  (P <> EmptyString -> ends_nonblank P = true) ->
+  exists init c', c' <> EmptyString /\ is_blank c' = false /\
+                  forall tail, chunks_aux cur b (P ++ tail) = (init ++ chunks_aux c' false tail)%list.
 Proof.
   induction P as [|a r IH]; intros cur b H0 H1.
-  - destruct (H0 eq_refl) as [Hc ->]. exists [], cur. split; [exact Hc|]. intros tail. reflexivity.
+  - destruct (H0 eq_refl) as [Hc [-> Hb]]. exists [], cur. split; [exact Hc|]. split; [exact Hb|]. intros tail. reflexivity.
   - assert (E : ends_nonblank (String a r) = true) by (apply H1; discriminate).
     assert (Hr : r <> EmptyString -> ends_nonblank r = true) by (intros N; destruct r; [contradiction|exact E]).
     assert (Ha : r = EmptyString -> Ascii.eqb a sp = false).
     { intros ->. cbn [ends_nonblank] in E. rewrite Ascii.eqb_sym. destruct (Ascii.eqb sp a); [cbn in E; discriminate|reflexivity]. }
+    assert (Hb1 : r = EmptyString -> is_blank (s1 a) = false).
+    { intros Er. unfold is_blank, s1. cbn [sall]. rewrite Ascii.eqb_sym, (Ha Er). reflexivity. }
     destruct cur as [|c0 cr].
-    + destruct (IH (s1 a) (Ascii.eqb a sp)) as [init [c' [Hc' Ht]]].
-      * intros Er. split; [discriminate|apply Ha; exact Er].
+    + destruct (IH (s1 a) (Ascii.eqb a sp)) as [init [c' [Hc' [Hb' Ht]]]].
+      * intros Er. split; [discriminate|]. split; [apply Ha; exact Er|apply Hb1; exact Er].
       * exact Hr.
-      * exists init, c'. split; [exact Hc'|]. intros tail. simpl. apply Ht.
+      * exists init, c'. split; [exact Hc'|]. split; [exact Hb'|]. intros tail. simpl. apply Ht.
     + destruct (Bool.eqb (Ascii.eqb a sp) b) eqn:Eb.
-      * destruct (IH (String c0 cr ++ s1 a) b) as [init [c' [Hc' Ht]]].
-        -- intros Er. split; [discriminate|]. apply Bool.eqb_prop in Eb. rewrite <- Eb. apply Ha. exact Er.
+      * destruct (IH (String c0 cr ++ s1 a) b) as [init [c' [Hc' [Hb' Ht]]]].
+        -- intros Er. split; [discriminate|]. split.
+           ++ apply Bool.eqb_prop in Eb. rewrite <- Eb. apply Ha. exact Er.
+           ++ apply is_blank_app_false. apply Hb1. exact Er.
         -- exact Hr.
-        -- exists init, c'. split; [exact Hc'|]. intros tail.
+        -- exists init, c'. split; [exact Hc'|]. split; [exact Hb'|]. intros tail.
            change (String a r ++ tail) with (String a (r ++ tail)). cbn [chunks_aux]. rewrite Eb. apply Ht.
-      * destruct (IH (s1 a) (Ascii.eqb a sp)) as [init [c' [Hc' Ht]]].
-        -- intros Er. split; [discriminate|apply Ha; exact Er].
+      * destruct (IH (s1 a) (Ascii.eqb a sp)) as [init [c' [Hc' [Hb' Ht]]]].
+        -- intros Er. split; [discriminate|]. split; [apply Ha; exact Er|apply Hb1; exact Er].
         -- exact Hr.
-        -- exists (String c0 cr :: init), c'. split; [exact Hc'|]. intros tail.
+        -- exists (String c0 cr :: init), c'. split; [exact Hc'|]. split; [exact Hb'|]. intros tail.
            change (String a r ++ tail) with (String a (r ++ tail)). cbn [chunks_aux]. rewrite Eb. rewrite Ht. reflexivity.
 Qed.
 
 Lemma chunks_open P : ends_nonblank P = true ->
-  exists init c', c' <> EmptyString /\ forall tail, chunks (P ++ tail) = (init ++ chunks_aux c' false tail)%list.
+  exists init c', c' <> EmptyString /\ is_blank c' = false /\
+                  forall tail, chunks (P ++ tail) = (init ++ chunks_aux c' false tail)%list.
 Proof.
   intros E. unfold chunks. apply chunks_aux_open; [|intros _; exact E]. intros ->. discriminate.
 Qed.
@@ -168,7 +175,7 @@ Proof. unfold is_blank. induction n; simpl; [reflexivity|exact IHn]. Qed.
 Lemma fill_fits_trailing w h body n :
   ends_nonblank body = true -> String.length (body ++ spaces (S n)) <= w -> fill w h (body ++ spaces (S n)) = body.
 Proof.
-  intros E L. unfold fill. destruct (chunks_open body E) as [init [c' [Hc' Ht]]].
+  intros E L. unfold fill. destruct (chunks_open body E) as [init [c' [Hc' [_ Ht]]]].
   pose proof (Ht (spaces (S n))) as C1. rewrite (chunks_aux_spaces c' n Hc') in C1.
   pose proof (Ht EmptyString) as C0. rewrite app_nil_r_s, (chunks_aux_end c' Hc') in C0.
   pose proof (concat_chunks body) as Cb. rewrite C0 in Cb.
@@ -372,6 +379,521 @@ Proof.
   eexists. split; [exact R|]. split; [reflexivity|split; [intros []|reflexivity]].
 Qed.
 
+Lemma join_cons_s sep h l : l <> [] -> join sep (h :: l) = h ++ sep ++ join sep l.
+Proof. destruct l; [contradiction|reflexivity]. Qed.
+
+Lemma join_concat sep ls : Forall (fun l => l <> []) ls -> join sep (map (join sep) ls) = join sep (List.concat ls).
+Proof.
+  induction ls as [|l r IH]; intros F; [reflexivity|]. inversion F; subst.
+  destruct r as [|l2 r2].
+  - simpl. rewrite app_nil_r. reflexivity.
+  - change (map (join sep) (l :: l2 :: r2)) with (join sep l :: map (join sep) (l2 :: r2)).
+    rewrite join_cons_s by discriminate. rewrite IH by assumption.
+    cbn [List.concat]. rewrite (join_app_s sep l); [reflexivity|assumption|].
+    inversion H2; subst. destruct l2; [contradiction|discriminate].
+Qed.
+
+Lemma no_nl_app a b : no_nl a -> no_nl b -> no_nl (a ++ b).
+Proof. unfold no_nl, has_char. intros Ha Hb. rewrite any_app, Ha, Hb. reflexivity. Qed.
+
+Lemma no_nl_spaces n : no_nl (spaces n).
+Proof. unfold no_nl, has_char. apply any_spaces. reflexivity. Qed.
+
+
+Lemma aset_aset {K V} (eqb : K -> K -> bool) (spec : forall a b, eqb a b = true <-> a = b) (l : list (K * V)) k x y :
+  aset eqb (aset eqb l k x) k y = aset eqb l k y.
+Proof.
+  induction l as [|[k0 v0] r IH]; simpl.
+  - rewrite (proj2 (spec k k) eq_refl). reflexivity.
+  - destruct (eqb k k0) eqn:E; simpl; rewrite E; [reflexivity|]. rewrite IH. reflexivity.
+Qed.
+
+
+Lemma rstrip_cons a r :
+  rstrip (String a r) = match rstrip r with EmptyString => if is_space a then EmptyString else s1 a | r' => String a r' end.
+Proof. reflexivity. Qed.
+
+(* ================================================================== greedy wrapping of words *)
+Definition wlines (w : nat) (text : string) : list string :=
+  wrap_lines (S (List.length (chunks text))) w (key_width + 3) true (chunks text).
+
+Lemma fill_wlines w text : fill w (key_width + 3) text = join (s1 nl) (wlines w text).
+Proof. reflexivity. Qed.
+
+Definition nosp (x : string) : bool := sall (fun a => negb (is_space a)) x.
+Definition word_ok (x : string) : Prop :=
+  x <> EmptyString /\ nosp x = true /\
+  match x with String a _ => a <> "#"%char /\ a <> ";"%char | EmptyString => True end.
+
+Definition pairs (ws : list string) : list string := flat_map (fun x => [s1 sp; x]) ws.
+Fixpoint tailtext (ws : list string) : string :=
+  match ws with [] => EmptyString | x :: r => String sp (x ++ tailtext r) end.
+Definition line_of (h : nat) (g : list string) : string := spaces h ++ join (s1 sp) g.
+
+Lemma nosp_char a : negb (is_space a) = true -> Ascii.eqb a sp = false.
+Proof.
+  intros H. destruct (Ascii.eqb a sp) eqn:E; [|reflexivity]. apply Ascii.eqb_eq in E. subst. discriminate.
+Qed.
+
+Lemma word_nonblank x : word_ok x -> is_blank x = false.
+Proof.
+  intros [N [S _]]. destruct x as [|a r]; [contradiction|]. unfold nosp in S. cbn [sall] in S.
+  apply andb_true_iff in S. destruct S as [Sa _]. unfold is_blank. cbn [sall].
+  rewrite Ascii.eqb_sym, (nosp_char a Sa). reflexivity.
+Qed.
+
+Lemma chunks_word x : forall cur rest, cur <> EmptyString -> nosp x = true ->
+  chunks_aux cur false (x ++ rest) = chunks_aux (cur ++ x) false rest.
+Proof.
+  induction x as [|a r IH]; intros cur rest Hc S; [rewrite app_nil_r_s; reflexivity|].
+  unfold nosp in S. cbn [sall] in S. apply andb_true_iff in S. destruct S as [Sa Sr].
+  change (String a r ++ rest) with (String a (r ++ rest)). cbn [chunks_aux]. rewrite (nosp_char a Sa).
+  destruct cur as [|c0 cr]; [contradiction|]. cbn [Bool.eqb].
+  rewrite IH; [|destruct cr; discriminate|exact Sr]. rewrite app_assoc_s. reflexivity.
+Qed.
+
+Lemma chunks_tail ws : forall c, c <> EmptyString -> Forall word_ok ws ->
+  chunks_aux c false (tailtext ws) = c :: pairs ws.
+Proof.
+  induction ws as [|x r IH]; intros c Hc F.
+  - destruct c; [contradiction|reflexivity].
+  - inversion F as [|? ? Hx Fr]; subst. destruct Hx as [Nx [Sx _]].
+    cbn [tailtext chunks_aux]. rewrite Ascii.eqb_refl. destruct c as [|c0 cr]; [contradiction|]. cbn [Bool.eqb].
+    destruct x as [|a x']; [contradiction|].
+    change (String a x' ++ tailtext r) with (String a (x' ++ tailtext r)). cbn [chunks_aux].
+    pose proof Sx as Sx'. unfold nosp in Sx'. cbn [sall] in Sx'. apply andb_true_iff in Sx'. destruct Sx' as [Sa Sr].
+    rewrite (nosp_char a Sa). cbn [s1 Bool.eqb].
+    rewrite chunks_word by (discriminate || exact Sr). rewrite (IH (s1 a ++ x')) by (discriminate || exact Fr).
+    reflexivity.
+Qed.
+
+Lemma concat_pairs ws : String.concat "" (pairs ws) = tailtext ws.
+Proof.
+  induction ws as [|x r IH]; [reflexivity|]. cbn [pairs flat_map app]. fold (pairs r).
+  rewrite !concat_cons_s, IH. reflexivity.
+Qed.
+
+Lemma join_tail x g : x ++ tailtext g = join (s1 sp) (x :: g).
+Proof.
+  revert x. induction g as [|y r IH]; intros x; [apply app_nil_r_s|].
+  cbn [tailtext]. rewrite IH. reflexivity.
+Qed.
+
+(* ---- take_fit on a chunk list that starts with a block that fits, then blank/word pairs *)
+Lemma take_fit_app pre : forall avail n rest acc,
+  n + total pre <= avail -> take_fit avail n (pre ++ rest) acc = take_fit avail (n + total pre) rest (rev pre ++ acc)%list.
+Proof.
+  induction pre as [|c r IH]; intros avail n rest acc H; [simpl; rewrite Nat.add_0_r; reflexivity|].
+  simpl in *. assert (L : Nat.leb (n + String.length c) avail = true) by (apply Nat.leb_le; lia).
+  rewrite L, IH by lia. rewrite <- app_assoc. simpl. f_equal. lia.
+Qed.
+
+Lemma rev_pairs_cons x g : rev (pairs (x :: g)) = (rev (pairs g) ++ [x; s1 sp])%list.
+Proof. cbn [pairs flat_map app]. fold (pairs g). simpl. rewrite <- app_assoc. reflexivity. Qed.
+
+Lemma take_pairs ws : forall avail n acc,
+  exists g r, ws = (g ++ r)%list /\
+    (take_fit avail n (pairs ws) acc = ((rev (pairs g) ++ acc)%list, pairs r) \/
+     exists x r', r = x :: r' /\ take_fit avail n (pairs ws) acc = (s1 sp :: (rev (pairs g) ++ acc)%list, x :: pairs r')).
+Proof.
+  induction ws as [|x r IH]; intros avail n acc.
+  - exists [], []. split; [reflexivity|left; reflexivity].
+  - cbn [pairs flat_map app]. fold (pairs r). cbn [take_fit].
+    destruct (Nat.leb (n + String.length (s1 sp)) avail) eqn:L1.
+    + destruct (Nat.leb (n + String.length (s1 sp) + String.length x) avail) eqn:L2.
+      * destruct (IH avail (n + String.length (s1 sp) + String.length x) (x :: s1 sp :: acc)) as [g [r' [E H]]].
+        exists (x :: g), r'. split; [rewrite E; reflexivity|].
+        rewrite rev_pairs_cons, <- app_assoc. cbn [app]. exact H.
+      * exists [], (x :: r). split; [reflexivity|]. right. exists x, r. split; reflexivity.
+    + exists [], (x :: r). split; [reflexivity|]. left. reflexivity.
+Qed.
+
+(* the last chunk of a line is a word (or the last chunk of the part that fits) *)
+Lemma pairs_last pre c g : exists pre' y, (pre ++ c :: pairs g)%list = (pre' ++ [y])%list /\ (y = c \/ In y g).
+Proof.
+  revert pre c. induction g as [|x r IH]; intros pre c.
+  - exists pre, c. split; [reflexivity|left; reflexivity].
+  - cbn [pairs flat_map app]. fold (pairs r).
+    destruct (IH (pre ++ [c; s1 sp])%list x) as [pre' [y [E H]]].
+    exists pre', y. split.
+    + rewrite <- E, <- app_assoc. reflexivity.
+    + right. destruct H as [->|H]; [left; reflexivity|right; exact H].
+Qed.
+
+Lemma wrap_skip_blank f w h y t : is_blank y = false ->
+  wrap_lines (S f) w h false (s1 sp :: y :: t) = wrap_lines (S f) w h false (y :: t).
+Proof. intros H. cbn [wrap_lines negb andb]. change (is_blank (s1 sp)) with true. rewrite H. reflexivity. Qed.
+
+(* lines but the first: every line is a non-empty group of words *)
+Lemma wrap_words w h : forall f x ws,
+  List.length ws < f -> word_ok x -> Forall word_ok ws ->
+  exists groups, wrap_lines f w h false (x :: pairs ws) = map (line_of h) groups /\
+                 List.concat groups = x :: ws /\ Forall (fun g => g <> []) groups.
+Proof.
+  induction f as [|f IH]; intros x ws L Hx F; [lia|].
+  (* the rest of the words, with or without the blank in front *)
+  assert (A : forall r, List.length r <= List.length ws -> Forall word_ok r ->
+              exists groups, wrap_lines f w h false (pairs r) = map (line_of h) groups /\
+                             List.concat groups = r /\ Forall (fun g => g <> []) groups).
+  { intros r Lr Fr. destruct r as [|y r'].
+    - exists []. split; [apply wrap_lines_nil|split; [reflexivity|constructor]].
+    - inversion Fr as [|? ? Hy Fr']; subst. cbn [pairs flat_map app]. fold (pairs r').
+      destruct f as [|f']; [simpl in Lr; lia|]. rewrite wrap_skip_blank by (apply word_nonblank; exact Hy).
+      apply IH; [simpl in Lr; lia|exact Hy|exact Fr']. }
+  assert (B : forall y r', S (List.length r') <= List.length ws -> word_ok y -> Forall word_ok r' ->
+              exists groups, wrap_lines f w h false (y :: pairs r') = map (line_of h) groups /\
+                             List.concat groups = y :: r' /\ Forall (fun g => g <> []) groups).
+  { intros y r' Lr Hy Fr. apply IH; [lia|exact Hy|exact Fr]. }
+  pose proof (word_nonblank x Hx) as Bx.
+  cbn [wrap_lines negb andb]. rewrite Bx. cbv zeta. cbn [take_fit plus].
+  destruct (Nat.leb (String.length x) (w - h)) eqn:Lx.
+  - destruct (take_pairs ws (w - h) (String.length x) [x]) as [g [r [E [T|[y [r' [Er T]]]]]]]; rewrite T; cbv iota beta.
+    + (* the line ends after a word *)
+      destruct (pairs_last [] x g) as [pre' [z [Ez Hz]]]. cbn [app] in Ez.
+      assert (Erev : (rev (pairs g) ++ [x])%list = z :: rev pre').
+      { change (rev (pairs g) ++ [x])%list with (rev (x :: pairs g)). rewrite Ez, rev_app_distr. reflexivity. }
+      assert (Bz : is_blank z = false).
+      { destruct Hz as [->|Hz]; [exact Bx|]. apply word_nonblank. rewrite Forall_forall in F. apply F.
+        rewrite E, in_app_iff. left. exact Hz. }
+      rewrite Erev, Bz. rewrite <- Erev. change (rev (pairs g) ++ [x])%list with (rev (x :: pairs g)).
+      rewrite rev_involutive, concat_cons_s, concat_pairs, join_tail.
+      destruct (A r) as [groups [Eg [Cg Ng]]].
+      * rewrite E, app_length. lia.
+      * rewrite E in F. apply Forall_app in F. exact (proj2 F).
+      * exists ((x :: g) :: groups). split; [rewrite Eg; reflexivity|]. split.
+        -- cbn [List.concat]. rewrite Cg, E. reflexivity.
+        -- constructor; [discriminate|exact Ng].
+    + (* the blank still fitted, the next word did not *)
+      change (is_blank (s1 sp)) with true. cbv iota.
+      destruct (pairs_last [] x g) as [pre' [z [Ez Hz]]]. cbn [app] in Ez.
+      assert (Erev : (rev (pairs g) ++ [x])%list = z :: rev pre').
+      { change (rev (pairs g) ++ [x])%list with (rev (x :: pairs g)). rewrite Ez, rev_app_distr. reflexivity. }
+      rewrite Erev. rewrite <- Erev. change (rev (pairs g) ++ [x])%list with (rev (x :: pairs g)).
+      rewrite rev_involutive, concat_cons_s, concat_pairs, join_tail.
+      assert (Fr : Forall word_ok (y :: r')) by (rewrite E, Er in F; apply Forall_app in F; exact (proj2 F)).
+      inversion Fr as [|? ? Hy Fr']; subst.
+      destruct (B y r') as [groups [Eg [Cg Ng]]]; [rewrite app_length; simpl; lia|exact Hy|exact Fr'|].
+      exists ((x :: g) :: groups). split; [rewrite Eg; reflexivity|]. split.
+      * cbn [List.concat]. rewrite Cg. reflexivity.
+      * constructor; [discriminate|exact Ng].
+  - (* a word longer than the line: alone on its line *)
+    cbv iota beta. rewrite Bx. cbn [rev app]. 
+    destruct (A ws (le_n _) F) as [groups [Eg [Cg Ng]]].
+    exists ([x] :: groups). split.
+    + rewrite Eg. cbn [map]. unfold line_of at 2. cbn [join]. rewrite concat_cons_s. cbn [String.concat]. rewrite app_nil_r_s. reflexivity.
+    + split; [cbn [List.concat app]; rewrite Cg; reflexivity|constructor; [discriminate|exact Ng]].
+Qed.
+
+Lemma pairs_length ws : List.length (pairs ws) = 2 * List.length ws.
+Proof. induction ws as [|x r IH]; [reflexivity|]. cbn [pairs flat_map app]. fold (pairs r). simpl. lia. Qed.
+
+(* the whole entry: the part `key<pad> =` fits on the first line, the words of the value follow *)
+Lemma wlines_words w P ws :
+  ends_nonblank P = true -> String.length P <= w -> Forall word_ok ws ->
+  exists g0 groups, wlines w (P ++ tailtext ws) = (P ++ tailtext g0) :: map (line_of (key_width + 3)) groups /\
+                    (g0 ++ List.concat groups)%list = ws /\ Forall (fun g => g <> []) groups.
+Proof.
+  intros E L F. unfold wlines.
+  destruct (chunks_open P E) as [init [c' [Hc' [Bc' Ht]]]].
+  pose proof (Ht (tailtext ws)) as C1. rewrite (chunks_tail ws c' Hc' F) in C1.
+  pose proof (Ht EmptyString) as C0. rewrite app_nil_r_s, (chunks_aux_end c' Hc') in C0.
+  pose proof (concat_chunks P) as Cb. rewrite C0 in Cb.
+  pose proof (total_concat (chunks P)) as Tp. rewrite concat_chunks, C0 in Tp.
+  rewrite C1. set (pre := (init ++ [c'])%list) in *.
+  replace (init ++ c' :: pairs ws)%list with (pre ++ pairs ws)%list by (unfold pre; rewrite <- app_assoc; reflexivity).
+  set (cs := (pre ++ pairs ws)%list).
+  assert (Lcs : List.length cs = List.length pre + 2 * List.length ws) by (unfold cs; rewrite app_length, pairs_length; reflexivity).
+  assert (Lpre : 1 <= List.length pre) by (unfold pre; rewrite app_length; simpl; lia).
+  assert (Ecs : exists c0 r0, cs = c0 :: r0) by (unfold cs, pre; destruct init; simpl; eauto).
+  destruct Ecs as [c0 [r0 E0]].
+  (* the rest of the words on the following lines *)
+  assert (A : forall r, List.length r <= List.length ws -> Forall word_ok r ->
+              exists groups, wrap_lines (List.length cs) w (key_width + 3) false (pairs r) = map (line_of (key_width + 3)) groups /\
+                             List.concat groups = r /\ Forall (fun g => g <> []) groups).
+  { intros r Lr Fr. destruct r as [|y r'].
+    - exists []. split; [apply wrap_lines_nil|split; [reflexivity|constructor]].
+    - inversion Fr as [|? ? Hy Fr']; subst. cbn [pairs flat_map app]. fold (pairs r').
+      destruct (List.length cs) as [|f'] eqn:El; [lia|]. rewrite wrap_skip_blank by (apply word_nonblank; exact Hy).
+      apply wrap_words; [simpl in Lr; lia|exact Hy|exact Fr']. }
+  cbn [wrap_lines]. rewrite E0. cbn [negb andb]. rewrite <- E0. rewrite Nat.sub_0_r.
+  unfold cs at 1. rewrite take_fit_app by lia. rewrite app_nil_r. cbn [plus].
+  destruct (take_pairs ws w (total pre) (rev pre)) as [g [r [Ew [T|[y [r' [Er T]]]]]]]; rewrite T; cbv iota beta.
+  - destruct (pairs_last init c' g) as [pre' [z [Ez Hz]]].
+    assert (Erev : (rev (pairs g) ++ rev pre)%list = z :: rev pre').
+    { rewrite <- rev_app_distr. unfold pre. rewrite <- app_assoc. cbn [app]. rewrite Ez, rev_app_distr. reflexivity. }
+    assert (Bz : is_blank z = false).
+    { destruct Hz as [->|Hz]; [exact Bc'|]. apply word_nonblank. rewrite Forall_forall in F. apply F.
+      rewrite Ew, in_app_iff. left. exact Hz. }
+    rewrite Erev, Bz. rewrite <- Erev. rewrite <- rev_app_distr, rev_involutive, concat_app_s, concat_pairs, Cb.
+    destruct (A r) as [groups [Eg [Cg Ng]]].
+    + rewrite Ew, app_length. lia.
+    + rewrite Ew in F. apply Forall_app in F. exact (proj2 F).
+    + exists g, groups. split; [rewrite Eg; reflexivity|]. split; [rewrite Cg; symmetry; exact Ew|exact Ng].
+  - change (is_blank (s1 sp)) with true. cbv iota.
+    destruct (pairs_last init c' g) as [pre' [z [Ez Hz]]].
+    assert (Erev : (rev (pairs g) ++ rev pre)%list = z :: rev pre').
+    { rewrite <- rev_app_distr. unfold pre. rewrite <- app_assoc. cbn [app]. rewrite Ez, rev_app_distr. reflexivity. }
+    rewrite Erev. rewrite <- Erev. rewrite <- rev_app_distr, rev_involutive, concat_app_s, concat_pairs, Cb.
+    assert (Fr : Forall word_ok (y :: r')) by (rewrite Ew, Er in F; apply Forall_app in F; exact (proj2 F)).
+    inversion Fr as [|? ? Hy Fr']; subst.
+    destruct (wrap_words w (key_width + 3) (List.length cs) y r') as [groups [Eg [Cg Ng]]];
+      [rewrite Lcs, app_length; simpl; lia|exact Hy|exact Fr'|].
+    exists g, groups. split; [rewrite Eg; reflexivity|]. split; [rewrite Cg; reflexivity|exact Ng].
+Qed.
+
+(* ================================================================== wrapped lines contain no line break *)
+Lemma chunks_aux_no_nl s : forall cur b, no_nl cur -> no_nl s -> Forall no_nl (chunks_aux cur b s).
+Proof.
+  induction s as [|a r IH]; intros cur b Hc Hs; simpl.
+  - destruct cur; [constructor|repeat constructor; exact Hc].
+  - unfold no_nl, has_char in Hs. cbn [sany] in Hs. apply orb_false_iff in Hs. destruct Hs as [Ha Hr].
+    assert (N1 : no_nl (s1 a)) by (unfold no_nl, has_char, s1; cbn [sany]; rewrite Ha; reflexivity).
+    destruct cur as [|c0 cr]; [apply IH; assumption|].
+    destruct (Bool.eqb (Ascii.eqb a sp) b).
+    + apply IH; [apply no_nl_app; assumption|exact Hr].
+    + constructor; [exact Hc|apply IH; assumption].
+Qed.
+
+Lemma take_fit_forall (P : string -> Prop) cs : forall avail n acc,
+  Forall P cs -> Forall P acc ->
+  Forall P (fst (take_fit avail n cs acc)) /\ Forall P (snd (take_fit avail n cs acc)).
+Proof.
+  induction cs as [|c r IH]; intros avail n acc Fc Fa; [split; [exact Fa|constructor]|].
+  inversion Fc; subst. cbn [take_fit]. destruct (Nat.leb (n + String.length c) avail).
+  - apply IH; [assumption|constructor; assumption].
+  - split; [exact Fa|exact Fc].
+Qed.
+
+Lemma concat_no_nl l : Forall no_nl l -> no_nl (String.concat "" l).
+Proof.
+  induction l as [|x r IH]; intros F; [reflexivity|]. inversion F; subst. rewrite concat_cons_s.
+  apply no_nl_app; [assumption|apply IH; assumption].
+Qed.
+
+Lemma wrap_no_nl f : forall w h b cs, Forall no_nl cs -> Forall no_nl (wrap_lines f w h b cs).
+Proof.
+  induction f as [|f IH]; intros w h b cs F; [constructor|]. cbn [wrap_lines].
+  destruct cs as [|c0 r0]; [constructor|]. inversion F as [|? ? F0 Fr0]; subst.
+  set (cs1 := if (negb b && is_blank c0)%bool then r0 else c0 :: r0).
+  assert (F1 : Forall no_nl cs1) by (unfold cs1; destruct (negb b && is_blank c0)%bool; assumption).
+  destruct cs1 as [|d1 t1] eqn:E1; [constructor|].
+  pose proof (take_fit_forall no_nl (d1 :: t1) (w - (if b then 0 else h)) 0 [] F1 (Forall_nil _)) as [Fa Fr].
+  destruct (take_fit (w - (if b then 0 else h)) 0 (d1 :: t1) []) as [acc rest]. cbn [fst snd] in Fa, Fr.
+  assert (G : forall acc2 rest2, Forall no_nl acc2 -> Forall no_nl rest2 ->
+              Forall no_nl (match match acc2 with c :: r => if is_blank c then r else acc2 | [] => [] end with
+                            | [] => wrap_lines f w h false rest2
+                            | _ => (spaces (if b then 0 else h) ++
+                                    String.concat "" (rev match acc2 with c :: r => if is_blank c then r else acc2 | [] => [] end))
+                                   :: wrap_lines f w h false rest2
+                            end)).
+  { intros acc2 rest2 F2 Fr2.
+    assert (F3 : Forall no_nl (match acc2 with c :: r => if is_blank c then r else acc2 | [] => [] end)).
+    { destruct acc2 as [|c r]; [constructor|]. inversion F2; subst. destruct (is_blank c); assumption. }
+    destruct (match acc2 with c :: r => if is_blank c then r else acc2 | [] => [] end) as [|y t] eqn:E3.
+    - apply IH. exact Fr2.
+    - constructor; [|apply IH; exact Fr2]. apply no_nl_app; [apply no_nl_spaces|].
+      apply concat_no_nl. apply Forall_rev. exact F3. }
+  destruct acc as [|a0 at0].
+  - destruct rest as [|c r].
+    + apply (G [] []); constructor.
+    + inversion Fr; subst. apply (G [c] r); [repeat constructor; assumption|assumption].
+  - apply (G (a0 :: at0) rest); assumption.
+Qed.
+
+Lemma chunks_no_nl text : no_nl text -> Forall no_nl (chunks text).
+Proof. intros H. unfold chunks. apply chunks_aux_no_nl; [reflexivity|exact H]. Qed.
+
+Lemma wlines_no_nl w text : no_nl text -> Forall no_nl (wlines w text).
+Proof. intros H. unfold wlines. apply wrap_no_nl. apply chunks_no_nl. exact H. Qed.
+
+(* a text that fill returns unchanged is one physical line *)
+Lemma wlines_single w text line :
+  no_nl text -> no_nl line -> line <> EmptyString -> fill w (key_width + 3) text = line -> wlines w text = [line].
+Proof.
+  intros Nt Nl Ne Hf. rewrite fill_wlines in Hf.
+  destruct (wlines w text) as [|l0 lr] eqn:E; [simpl in Hf; subst; contradiction|].
+  pose proof (wlines_no_nl w text Nt) as F. rewrite E in F.
+  assert (S1 : split_on nl (join (s1 nl) (l0 :: lr)) = l0 :: lr) by (apply split_join; [discriminate|exact F]).
+  rewrite Hf in S1. unfold split_on in S1. rewrite split_where_none in S1 by exact Nl. symmetry. exact S1.
+Qed.
+
+(* ================================================================== the reader over an option written on several lines *)
+Definition tight (c : string) : Prop :=
+  c <> EmptyString /\ lstrip c = c /\ rstrip c = c /\ is_comment c = false /\ no_nl c.
+
+Lemma length_spaces n : String.length (spaces n) = n.
+Proof. induction n; simpl; [reflexivity|]. rewrite IHn. reflexivity. Qed.
+
+Lemma lstrip_spaces n c : lstrip (spaces n ++ c) = lstrip c.
+Proof. induction n; [reflexivity|exact IHn]. Qed.
+
+Lemma read_cont (cs : bool) st sn on c :
+  tight c -> r_sect st = Some sn -> r_opt st = Some on -> r_indent st = 0 ->
+  read_line cs (Ok st) (spaces (key_width + 3) ++ c) =
+  Ok (RState (add_value_line (r_done st) sn on c) (Some sn) (Some on) 0).
+Proof.
+  intros [Ne [Hl [Hr [Hc _]]]] Hs Ho Hi.
+  assert (Estrip : strip (spaces (key_width + 3) ++ c) = c).
+  { unfold strip. rewrite lstrip_spaces, Hl. exact Hr. }
+  assert (Eind : indent_of (spaces (key_width + 3) ++ c) = key_width + 3).
+  { unfold indent_of. rewrite lstrip_spaces, Hl, length_app_s, length_spaces. lia. }
+  unfold read_line. cbv zeta. rewrite Estrip, Hc. destruct c as [|a r]; [contradiction|].
+  rewrite Eind, Hs, Ho, Hi. reflexivity.
+Qed.
+
+Lemma add_line_explicit done sn opts k vl c :
+  ~ In k (map fst opts) ->
+  add_value_line (sset done sn (opts ++ [(k, Some vl)])%list) sn k c = sset done sn (opts ++ [(k, Some (vl ++ [c])%list)])%list.
+Proof.
+  intros N. unfold add_value_line, sset, sget.
+  rewrite (aget_aset_same _ _ _ string_eqb_spec).
+  rewrite (aget_last _ _ _ string_eqb_spec opts k (Some vl) N).
+  rewrite (aset_last _ _ _ string_eqb_spec opts k (Some vl) (Some (vl ++ [c])%list) N).
+  apply (aset_aset _ string_eqb_spec).
+Qed.
+
+Definition st_of (done : parsed) (sn : string) (opts : list (string * option (list string))) (k : string)
+           (vl : list string) : rstate :=
+  RState (sset done sn (opts ++ [(k, Some vl)])%list) (Some sn) (Some k) 0.
+
+Lemma read_conts cs done sn opts k : ~ In k (map fst opts) -> forall cl vl,
+  Forall tight cl ->
+  fold_left (read_line cs) (map (fun c => spaces (key_width + 3) ++ c) cl) (Ok (st_of done sn opts k vl)) =
+  Ok (st_of done sn opts k (vl ++ cl)%list).
+Proof.
+  intros N. induction cl as [|c r IH]; intros vl F; [rewrite app_nil_r; reflexivity|].
+  inversion F; subst. cbn [map fold_left].
+  rewrite (read_cont cs (st_of done sn opts k vl) sn k c H1 eq_refl eq_refl eq_refl).
+  cbn [st_of r_done]. rewrite (add_line_explicit done sn opts k vl c N).
+  change (RState (sset done sn (opts ++ [(k, Some (vl ++ [c])%list)])%list) (Some sn) (Some k) 0)
+    with (st_of done sn opts k (vl ++ [c])%list).
+  rewrite IH by assumption. rewrite <- app_assoc. reflexivity.
+Qed.
+
+(* ---- words joined by single blanks *)
+Lemma rstrip_nosp y : nosp y = true -> rstrip y = y.
+Proof.
+  induction y as [|a r IH]; [reflexivity|]. unfold nosp. cbn [sall]. intros H. apply andb_true_iff in H.
+  destruct H as [Ha Hr]. rewrite rstrip_cons, (IH Hr). apply negb_true_iff in Ha. rewrite Ha. destruct r; reflexivity.
+Qed.
+
+Lemma nosp_no_nl y : nosp y = true -> no_nl y.
+Proof.
+  unfold nosp, no_nl, has_char. induction y as [|a r IH]; [reflexivity|]. cbn [sall sany]. intros H.
+  apply andb_true_iff in H. destruct H as [Ha Hr]. rewrite (IH Hr), orb_false_r.
+  destruct (Ascii.eqb nl a) eqn:E; [|reflexivity]. apply Ascii.eqb_eq in E. subst a. discriminate.
+Qed.
+
+Lemma join_last_word g : g <> [] -> exists pre y, join (s1 sp) g = pre ++ y /\ In y g.
+Proof.
+  induction g as [|x r IH]; [contradiction|]. intros _. destruct r as [|z r'].
+  - exists EmptyString, x. split; [reflexivity|left; reflexivity].
+  - destruct (IH ltac:(discriminate)) as [pre [y [E Hy]]]. exists (x ++ s1 sp ++ pre), y. split.
+    + rewrite join_cons_s by discriminate. rewrite E, !app_assoc_s. reflexivity.
+    + right. exact Hy.
+Qed.
+
+Lemma words_no_nl g : Forall word_ok g -> no_nl (join (s1 sp) g).
+Proof.
+  induction g as [|x r IH]; intros F; [reflexivity|]. inversion F as [|? ? Hx Fr]; subst.
+  destruct r as [|z r']; [apply nosp_no_nl; exact (proj1 (proj2 Hx))|].
+  rewrite join_cons_s by discriminate. apply no_nl_app; [apply nosp_no_nl; exact (proj1 (proj2 Hx))|].
+  apply no_nl_app; [reflexivity|apply IH; exact Fr].
+Qed.
+
+Lemma tight_words g : g <> [] -> Forall word_ok g -> tight (join (s1 sp) g).
+Proof.
+  intros Ne F. destruct g as [|x r]; [contradiction|]. inversion F as [|? ? Hx Fr]; subst.
+  destruct Hx as [Nx [Sx Cx]]. destruct x as [|a x']; [contradiction|].
+  assert (Ej : exists t, join (s1 sp) (String a x' :: r) = String a t).
+  { destruct r; [exists x'; reflexivity|]. rewrite join_cons_s by discriminate. eexists. reflexivity. }
+  destruct Ej as [t Ej].
+  pose proof Sx as Sx'. unfold nosp in Sx'. cbn [sall] in Sx'. apply andb_true_iff in Sx'. destruct Sx' as [Sa _].
+  apply negb_true_iff in Sa.
+  split; [rewrite Ej; discriminate|]. split; [rewrite Ej; apply lstrip_nonspace; exact Sa|]. split; [|split].
+  - destruct (join_last_word (String a x' :: r) ltac:(discriminate)) as [pre [y [E Hy]]]. rewrite E.
+    rewrite Forall_forall in F. destruct (F y Hy) as [Ny [Sy _]]. apply rstrip_app_keep; [apply rstrip_nosp; exact Sy|exact Ny].
+  - rewrite Ej. destruct Cx as [C1 C2]. apply is_comment_other; assumption.
+  - apply words_no_nl. exact F.
+Qed.
+
+Lemma smap_join f l :
+  smap f (join (s1 nl) l) = join (s1 (f nl)) (map (smap f) l).
+Proof.
+  induction l as [|x r IH]; [reflexivity|]. destruct r as [|y r'].
+  - reflexivity.
+  - rewrite join_cons_s by discriminate. change (map (smap f) (x :: y :: r')) with (smap f x :: map (smap f) (y :: r')).
+    rewrite (join_cons_s (s1 (f nl)) (smap f x)) by (simpl; discriminate). rewrite <- IH.
+    assert (A : forall a b, smap f (a ++ b) = smap f a ++ smap f b).
+    { induction a as [|c a' IHa]; intros b; simpl; [reflexivity|]. rewrite IHa. reflexivity. }
+    rewrite !A. reflexivity.
+Qed.
+
+Lemma smap_nl_id c : no_nl c -> smap (fun a => if Ascii.eqb a nl then sp else a) c = c.
+Proof.
+  intros H. apply smap_id. unfold no_nl, has_char in H. induction c as [|a r IH]; [reflexivity|].
+  cbn [sany] in H. apply orb_false_iff in H. destruct H as [Ha Hr]. cbn [sall].
+  rewrite (Ascii.eqb_sym a nl), Ha, Ascii.eqb_refl. apply IH. exact Hr.
+Qed.
+
+Lemma join_last_gen sep (l : list string) x : exists pre, join sep (l ++ [x]) = pre ++ x.
+Proof.
+  induction l as [|y r IH]; [exists EmptyString; reflexivity|].
+  destruct IH as [pre E]. exists (y ++ sep ++ pre).
+  change ((y :: r) ++ [x])%list with (y :: (r ++ [x]))%list. rewrite join_cons_s by (destruct r; discriminate).
+  rewrite E, !app_assoc_s. reflexivity.
+Qed.
+
+(* the value lines of a wrapped value are joined back to the value *)
+Lemma joined_words g0 groups :
+  Forall word_ok (g0 ++ List.concat groups) -> Forall (fun g => g <> []) groups -> (g0 ++ List.concat groups)%list <> [] ->
+  joined_value (join (s1 sp) g0 :: map (join (s1 sp)) groups) = join (s1 sp) (g0 ++ List.concat groups).
+Proof.
+  intros F Ng Ne. apply Forall_app in F. destruct F as [F0 Fg].
+  assert (Tg : Forall tight (map (join (s1 sp)) groups)).
+  { rewrite Forall_forall. intros c Hc. apply in_map_iff in Hc. destruct Hc as [g [<- Hg]].
+    rewrite Forall_forall in Ng. apply tight_words; [apply Ng; exact Hg|].
+    rewrite Forall_forall in *. intros y Hy. apply Fg. apply in_concat. exists g. split; assumption. }
+  set (ls := join (s1 sp) g0 :: map (join (s1 sp)) groups).
+  assert (Nls : Forall no_nl ls).
+  { unfold ls. constructor; [apply words_no_nl; exact F0|].
+    rewrite Forall_forall in *. intros c Hc. exact (proj2 (proj2 (proj2 (proj2 (Tg c Hc))))). }
+  (* the last line is tight: nothing is stripped on the right *)
+  assert (Er : rstrip (join (s1 nl) ls) = join (s1 nl) ls).
+  { destruct (exists_last (l := ls) ltac:(unfold ls; discriminate)) as [l' [c Ec]].
+    destruct (join_last_gen (s1 nl) l' c) as [pre Ep]. rewrite Ec, Ep.
+    assert (Tc : tight c).
+    { unfold ls in Ec. destruct groups as [|gl gr].
+      - cbn [map] in Ec. destruct l'; [|destruct l'; discriminate]. inversion Ec; subst.
+        apply tight_words; [|exact F0]. intros ->. apply Ne. reflexivity.
+      - assert (Hin : In c (map (join (s1 sp)) (gl :: gr))).
+        { assert (Hc : In c (join (s1 sp) g0 :: map (join (s1 sp)) (gl :: gr))) by (rewrite Ec, in_app_iff; right; left; reflexivity).
+          destruct Hc as [Hc|Hc]; [|exact Hc].
+          (* c is the last element of a list with at least two elements, so it is in the tail *)
+          destruct l' as [|l0 l'']; [discriminate|]. injection Ec as E1 E2.
+          cbn [map] in E2 |- *. rewrite E2, in_app_iff. right. left. reflexivity. }
+        rewrite Forall_forall in Tg. apply Tg. exact Hin. }
+    destruct Tc as [Nc [_ [Rc _]]]. apply rstrip_app_keep; assumption. }
+  unfold joined_value, joined_raw. fold ls. rewrite Er.
+  rewrite (smap_join (fun a => if Ascii.eqb a nl then sp else a)). rewrite Ascii.eqb_refl.
+  replace (map (smap (fun a => if Ascii.eqb a nl then sp else a)) ls) with ls.
+  2:{ symmetry. rewrite <- (map_id ls) at 2. apply map_ext_in. intros c Hc. apply smap_nl_id.
+      rewrite Forall_forall in Nls. apply Nls. exact Hc. }
+  unfold ls. destruct g0 as [|x0 g0'].
+  - (* the value starts on the first continuation line *)
+    cbn [app] in *. destruct groups as [|gl gr]; [exfalso; apply Ne; reflexivity|].
+    rewrite join_cons_s by discriminate. cbn [join append]. 
+    change (String sp (join (s1 sp) (map (join (s1 sp)) (gl :: gr)))) with (s1 sp ++ join (s1 sp) (map (join (s1 sp)) (gl :: gr))).
+    cbn [append lstrip s1]. change (is_space sp) with true. cbv iota.
+    rewrite join_concat by exact Ng.
+    assert (T : tight (join (s1 sp) (List.concat (gl :: gr)))) by (apply tight_words; [exact Ne|exact Fg]).
+    exact (proj1 (proj2 T)).
+  - change (join (s1 sp) (x0 :: g0') :: map (join (s1 sp)) groups) with (map (join (s1 sp)) ((x0 :: g0') :: groups)).
+    rewrite join_concat by (constructor; [discriminate|exact Ng]). cbn [List.concat].
+    assert (T : tight (join (s1 sp) ((x0 :: g0') ++ List.concat groups))).
+    { apply tight_words; [discriminate|]. apply Forall_app. split; assumption. }
+    exact (proj1 (proj2 T)).
+Qed.
 (* ================================================================== the sub-grammar and the lines of a view *)
 Definition xform (cs : bool) (k : string) : string := if cs then k else lower k.
 Definition mname (k mk : string) : string := k ++ ":" ++ mk.
@@ -384,18 +906,24 @@ Definition wval_ok (x : string) : Prop := x = EmptyString \/ value_ok x.
 Definition wline (k x : string) : string :=
   match x with EmptyString => pad_right key_width k ++ " =" | _ => plain_line k x end.
 
+(* a value as written at width w: it fits on the line of its key, or it is a sequence of words separated by
+   single blanks (then it may be wrapped, if only `key<pad> =` fits on the first line) *)
+Definition val_cond (w : nat) (k x : string) : Prop :=
+  (wval_ok x /\ String.length (plain_line k x) <= w) \/
+  (exists ws, ws <> [] /\ Forall word_ok ws /\ x = join (s1 sp) ws /\
+              String.length (pad_right key_width k ++ " =") <= w).
+
 Definition meta_item_ok (cs : bool) (w : nat) (k : string) (kv : string * option string) : Prop :=
   mkey_ok (fst kv) /\ xform cs (fst kv) = fst kv /\
   match snd kv with
-  | Some x => wval_ok x /\ String.length (plain_line (mname k (fst kv)) x) <= w
+  | Some x => val_cond w (mname k (fst kv)) x
   | None => String.length (mname k (fst kv)) <= w
   end.
 
 Definition entry_ok (cs : bool) (w : nat) (ke : string * entry) : Prop :=
   fst ke = e_key (snd ke) /\ key_ok (e_key (snd ke)) /\ has_char colon (e_key (snd ke)) = false /\
   no_nl (e_key (snd ke)) /\ xform cs (e_key (snd ke)) = e_key (snd ke) /\
-  wval_ok (e_val (snd ke)) /\
-  String.length (plain_line (e_key (snd ke)) (e_val (snd ke))) <= w /\
+  val_cond w (e_key (snd ke)) (e_val (snd ke)) /\
   NoDup (map fst (e_meta (snd ke))) /\ Forall (meta_item_ok cs w (e_key (snd ke))) (e_meta (snd ke)).
 
 (* the options an entry is written as: the entry itself, then one option key:meta per metadata item *)
@@ -412,19 +940,26 @@ Definition view_ok (cs : bool) (w : nat) (v : sections) : Prop :=
 
 Definition opt_line (o : string * option string) : string :=
   match snd o with Some x => wline (fst o) x | None => fst o end.
-Definition entry_lines_of (ke : string * entry) : list string :=
-  (map opt_line (entry_opts ke) ++ match e_meta (snd ke) with [] => [] | _ => [EmptyString] end)%list.
-Definition sect_lines (ns : string * sect) : list string :=
-  ("[" ++ fst ns ++ "]") :: flat_map entry_lines_of (snd ns).
-Fixpoint tail_lines (v : sections) : list string :=
+(* the text handed to textwrap for an option, and the physical lines it becomes *)
+Definition opt_text (o : string * option string) : string :=
+  match snd o with Some x => pad_right key_width (fst o) ++ " = " ++ x | None => fst o end.
+Definition opt_phys (w : nat) (o : string * option string) : list string := wlines w (opt_text o).
+Definition entry_lines_of (w : nat) (ke : string * entry) : list string :=
+  (flat_map (opt_phys w) (entry_opts ke) ++ match e_meta (snd ke) with [] => [] | _ => [EmptyString] end)%list.
+Definition sect_lines (w : nat) (ns : string * sect) : list string :=
+  ("[" ++ fst ns ++ "]") :: flat_map (entry_lines_of w) (snd ns).
+Fixpoint tail_lines (w : nat) (v : sections) : list string :=
   match v with
   | [] => [EmptyString]
-  | ns :: r => (EmptyString :: EmptyString :: sect_lines ns ++ tail_lines r)%list
+  | ns :: r => (EmptyString :: EmptyString :: sect_lines w ns ++ tail_lines w r)%list
   end.
 
 (* ---- one option line *)
-Definition opt_ok (cs : bool) (o : string * option string) : Prop :=
+Definition opt1_ok (cs : bool) (o : string * option string) : Prop :=
   key_ok (fst o) /\ xform cs (fst o) = fst o /\ match snd o with Some x => wval_ok x | None => True end.
+Definition opt_ok (cs : bool) (w : nat) (o : string * option string) : Prop :=
+  key_ok (fst o) /\ xform cs (fst o) = fst o /\ no_nl (fst o) /\
+  match snd o with Some x => val_cond w (fst o) x | None => String.length (fst o) <= w end.
 
 Lemma partition_nochar c s : has_char c s = false -> partition_on c s = (s, false, EmptyString).
 Proof.
@@ -489,7 +1024,7 @@ Proof.
 Qed.
 
 Lemma read_opt (cs : bool) st Nd sn no (o : string * option string) :
-  rinv st Nd sn no -> opt_ok cs o -> smem (fst o) no = false ->
+  rinv st Nd sn no -> opt1_ok cs o -> smem (fst o) no = false ->
   exists st', read_line cs (Ok st) (opt_line o) = Ok st' /\ rinv st' Nd sn (no ++ [o]).
 Proof.
   intros I [Hk [Hx Hv]] Hm. destruct o as [k [v|]]; simpl in *.
@@ -514,6 +1049,171 @@ Proof.
     fold (norm_sect opts). rewrite En. reflexivity.
 Qed.
 
+Lemma ends_nonblank_app a v : v <> EmptyString -> ends_nonblank (a ++ v) = ends_nonblank v.
+Proof.
+  intros N. induction a as [|x r IH]; [reflexivity|].
+  change (String x r ++ v) with (String x (r ++ v)). cbn [ends_nonblank].
+  destruct (r ++ v) eqn:E; [destruct r; [contradiction|discriminate]|]. exact IH.
+Qed.
+
+Lemma rstrip_ends v : rstrip v = v -> v <> EmptyString -> ends_nonblank v = true.
+Proof.
+  induction v as [|a r IH]; [intros _ N; contradiction|]. intros H _.
+  destruct r as [|b r'].
+  - simpl in H. cbn [ends_nonblank]. destruct (is_space a) eqn:Sa; [discriminate|].
+    destruct (Ascii.eqb sp a) eqn:E; [|reflexivity]. apply Ascii.eqb_eq in E. subst a. cbv in Sa. discriminate.
+  - cbn [ends_nonblank]. apply IH; [|discriminate].
+    rewrite rstrip_cons in H. destruct (rstrip (String b r')) eqn:E.
+    + destruct (is_space a); unfold s1 in H; discriminate.
+    + inversion H. reflexivity.
+Qed.
+
+Lemma ends_plain k x : value_ok x -> ends_nonblank (plain_line k x) = true.
+Proof.
+  intros [Vn [_ [Vr _]]]. unfold plain_line. rewrite ends_nonblank_app by (simpl; discriminate).
+  rewrite (ends_nonblank_app " = ") by exact Vn. apply rstrip_ends; assumption.
+Qed.
+
+Lemma fill_wline w k x :
+  key_ok k -> wval_ok x -> String.length (plain_line k x) <= w ->
+  fill w (key_width + 3) (pad_right key_width k ++ " = " ++ x) = wline k x.
+Proof.
+  intros Hk [->|Hv] L.
+  - change (wline k "") with (pad_right key_width k ++ " =").
+    change (pad_right key_width k ++ " = " ++ "") with (pad_right key_width k ++ " = ").
+    replace (pad_right key_width k ++ " = ") with ((pad_right key_width k ++ " =") ++ spaces 1)
+      by (rewrite app_assoc_s; reflexivity).
+    apply fill_fits_trailing.
+    + rewrite ends_nonblank_app by discriminate. reflexivity.
+    + unfold plain_line in L. rewrite app_assoc_s. exact L.
+  - assert (Ew : wline k x = plain_line k x) by (destruct Hv as [Vn _]; destruct x; [contradiction|reflexivity]).
+    rewrite Ew. apply fill_fits; [apply ends_plain; exact Hv|exact L].
+Qed.
+
+Lemma no_nl_plain k x : no_nl k -> no_nl x -> no_nl (plain_line k x).
+Proof.
+  intros Hk Hx. unfold plain_line, pad_right. repeat apply no_nl_app; try assumption; try reflexivity. apply no_nl_spaces.
+Qed.
+
+Lemma no_nl_wline k x : no_nl k -> no_nl x -> no_nl (wline k x).
+Proof.
+  intros Hk Hx. destruct x; [|apply no_nl_plain; assumption].
+  unfold wline, pad_right. repeat apply no_nl_app; try assumption; try reflexivity. apply no_nl_spaces.
+Qed.
+
+Lemma wval_no_nl x : wval_ok x -> no_nl x.
+Proof. intros [->|[_ [_ [_ H]]]]; [reflexivity|exact H]. Qed.
+
+
+Lemma smem_false_notin {V} k (l : list (string * V)) : smem k l = false -> ~ In k (map fst l).
+Proof.
+  unfold smem, amem. intros H. apply (aget_none_notin _ _ _ string_eqb_spec). destruct (aget String.eqb k l); [discriminate|reflexivity].
+Qed.
+
+Lemma tailtext_join ws : ws <> [] -> tailtext ws = s1 sp ++ join (s1 sp) ws.
+Proof. destruct ws as [|x r]; [contradiction|]. intros _. cbn [tailtext]. rewrite join_tail. reflexivity. Qed.
+
+Lemma value_ok_tight c : tight c -> value_ok c.
+Proof. intros [N [L [R [_ Nn]]]]. repeat split; assumption. Qed.
+
+(* an option written on a first line `key<pad> = words` and continuation lines `<33 blanks>words` *)
+Lemma read_words (cs : bool) st Nd sn no (k : string) ws g0 groups :
+  rinv st Nd sn no -> key_ok k -> xform cs k = k -> smem k no = false ->
+  Forall word_ok ws -> ws <> [] -> (g0 ++ List.concat groups)%list = ws -> Forall (fun g => g <> []) groups ->
+  exists st', fold_left (read_line cs)
+                (((pad_right key_width k ++ " =") ++ tailtext g0) :: map (line_of (key_width + 3)) groups) (Ok st) = Ok st' /\
+              rinv st' Nd sn (no ++ [(k, Some (join (s1 sp) ws))]).
+Proof.
+  intros I Hk Hx Hm Fw Nw Ew Ng. destruct (rinv_sget _ _ _ _ I) as [opts [Eo En]]. destruct I as [N [D S]].
+  rewrite <- En, smem_norm in Hm. pose proof (smem_false_notin _ _ Hm) as Nk.
+  unfold xform in Hx.
+  assert (F0 : Forall word_ok g0) by (rewrite <- Ew in Fw; apply Forall_app in Fw; exact (proj1 Fw)).
+  (* the first line *)
+  assert (R0 : read_line cs (Ok st) ((pad_right key_width k ++ " =") ++ tailtext g0) =
+               Ok (st_of (r_done st) sn opts k [join (s1 sp) g0])).
+  { destruct g0 as [|x g'].
+    - cbn [tailtext join]. rewrite app_nil_r_s.
+      pose proof (read_empty_line cs st k sn opts Hk S Eo) as R. cbv zeta in R. rewrite Hx in R. exact (R Hm).
+    - assert (T : tight (join (s1 sp) (x :: g'))) by (apply tight_words; [discriminate|exact F0]).
+      rewrite tailtext_join by discriminate.
+      replace ((pad_right key_width k ++ " =") ++ s1 sp ++ join (s1 sp) (x :: g')) with (plain_line k (join (s1 sp) (x :: g')))
+        by (unfold plain_line; rewrite !app_assoc_s; reflexivity).
+      pose proof (read_entry_line cs st k (join (s1 sp) (x :: g')) sn opts Hk (value_ok_tight _ T) S Eo) as R.
+      cbv zeta in R. rewrite Hx in R. exact (R Hm). }
+  assert (Tg : Forall tight (map (join (s1 sp)) groups)).
+  { rewrite Forall_forall. intros c Hc. apply in_map_iff in Hc. destruct Hc as [g [<- Hg]].
+    rewrite Forall_forall in Ng. apply tight_words; [apply Ng; exact Hg|].
+    rewrite Forall_forall in *. intros y Hy. apply Fw. rewrite <- Ew, in_app_iff. right. apply in_concat. exists g. split; assumption. }
+  eexists. split.
+  - cbn [fold_left]. rewrite R0.
+    replace (map (line_of (key_width + 3)) groups)
+      with (map (fun c => spaces (key_width + 3) ++ c) (map (join (s1 sp)) groups)) by (rewrite map_map; reflexivity).
+    apply (read_conts cs (r_done st) sn opts k Nk _ _ Tg).
+  - split; [|split; [exact D|reflexivity]].
+    cbn [st_of r_done]. unfold sset. rewrite norm_parsed_aset, N.
+    rewrite aset_last by (exact string_eqb_spec || exact D).
+    unfold norm_sect at 1. rewrite map_app. cbn [map fst snd opt_value option_map app].
+    fold (norm_sect opts). rewrite En.
+    rewrite joined_words; [rewrite Ew; reflexivity|rewrite Ew; exact Fw|exact Ng|rewrite Ew; exact Nw].
+Qed.
+
+Lemma val_no_nl w k x : val_cond w k x -> no_nl x.
+Proof. intros [[H _]|[ws [_ [F [-> _]]]]]; [apply wval_no_nl; exact H|apply words_no_nl; exact F]. Qed.
+
+Lemma opt_text_no_nl cs w o : opt_ok cs w o -> no_nl (opt_text o).
+Proof.
+  intros [_ [_ [Nk Hv]]]. unfold opt_text. destruct (snd o) as [x|]; [|exact Nk].
+  unfold pad_right. repeat apply no_nl_app; try assumption; try reflexivity; [apply no_nl_spaces|eapply val_no_nl; exact Hv].
+Qed.
+
+Lemma key_ends k : key_ok k -> ends_nonblank k = true.
+Proof. intros [Hk [Hr _]]. apply rstrip_ends; [exact Hr|]. destruct k; [contradiction|discriminate]. Qed.
+
+Lemma wline_nonempty k x : key_ok k -> wline k x <> EmptyString.
+Proof.
+  intros [Hk _]. destruct k as [|a kr]; [contradiction|]. destruct x; unfold wline, plain_line, pad_right; simpl; discriminate.
+Qed.
+
+(* the physical lines of an option: one line if it fits, else the first line and continuation lines of words *)
+Lemma phys_cases cs w o :
+  opt_ok cs w o ->
+  (opt_phys w o = [opt_line o] /\ opt1_ok cs o) \/
+  (exists x ws g0 groups, snd o = Some x /\ x = join (s1 sp) ws /\ ws <> [] /\ Forall word_ok ws /\
+     opt_phys w o = ((pad_right key_width (fst o) ++ " =") ++ tailtext g0) :: map (line_of (key_width + 3)) groups /\
+     (g0 ++ List.concat groups)%list = ws /\ Forall (fun g => g <> []) groups).
+Proof.
+  intros O. pose proof (opt_text_no_nl cs w o O) as Nt. destruct O as [Hk [Hx [Nk Hv]]].
+  unfold opt_phys, opt_text, opt_line in *. destruct (snd o) as [x|] eqn:Es.
+  - destruct Hv as [[Hw L]|[ws [Nw [Fw [Ex Lp]]]]].
+    + left. split; [|split; [exact Hk|split; [exact Hx|rewrite Es; exact Hw]]].
+      apply wlines_single; [exact Nt| |apply wline_nonempty; exact Hk|apply fill_wline; assumption].
+      apply no_nl_wline; [exact Nk|apply wval_no_nl; exact Hw].
+    + right. subst x.
+      destruct (wlines_words w (pad_right key_width (fst o) ++ " =") ws) as [g0 [groups [Ewl [Ec Ng]]]];
+        [rewrite ends_nonblank_app by discriminate; reflexivity|exact Lp|exact Fw|].
+      exists (join (s1 sp) ws), ws, g0, groups. repeat split; try assumption.
+      rewrite <- Ewl. f_equal. rewrite tailtext_join by exact Nw. rewrite !app_assoc_s. reflexivity.
+  - left. split; [|split; [exact Hk|split; [exact Hx|rewrite Es; exact I]]].
+    apply wlines_single; [exact Nt|exact Nk|destruct Hk as [Hk _]; destruct (fst o); [contradiction|discriminate]|].
+    apply fill_fits; [apply key_ends; exact Hk|exact Hv].
+Qed.
+
+Lemma opt_phys_nonempty cs w o : opt_ok cs w o -> opt_phys w o <> [].
+Proof.
+  intros O. destruct (phys_cases cs w o O) as [[E _]|[x [ws [g0 [groups [_ [_ [_ [_ [E _]]]]]]]]]]; rewrite E; discriminate.
+Qed.
+
+Lemma read_phys (cs : bool) w st Nd sn no (o : string * option string) :
+  rinv st Nd sn no -> opt_ok cs w o -> smem (fst o) no = false ->
+  exists st', fold_left (read_line cs) (opt_phys w o) (Ok st) = Ok st' /\ rinv st' Nd sn (no ++ [o]).
+Proof.
+  intros I O Hm. destruct (phys_cases cs w o O) as [[E O1]|[x [ws [g0 [groups [Es [Ex [Nw [Fw [E [Ec Ng]]]]]]]]]]].
+  - rewrite E. cbn [fold_left]. apply read_opt; assumption.
+  - rewrite E. destruct O as [Hk [Hx _]].
+    destruct (read_words cs st Nd sn no (fst o) ws g0 groups I Hk Hx Hm Fw Nw Ec Ng) as [st' [R I']].
+    exists st'. split; [exact R|]. destruct o as [k ov]. simpl in *. subst ov x. exact I'.
+Qed.
+
 Lemma smem_snoc {V} k (l : list (string * V)) k0 x :
   smem k (l ++ [(k0, x)]) = (smem k l || String.eqb k k0)%bool.
 Proof.
@@ -524,24 +1224,21 @@ Qed.
 Lemma fold_read_app cs l1 l2 st : fold_left (read_line cs) (l1 ++ l2) st = fold_left (read_line cs) l2 (fold_left (read_line cs) l1 st).
 Proof. apply fold_left_app. Qed.
 
-Lemma read_opts cs os : forall st Nd sn no,
-  rinv st Nd sn no -> Forall (opt_ok cs) os -> NoDup (map fst os) ->
+Lemma read_opts cs w os : forall st Nd sn no,
+  rinv st Nd sn no -> Forall (opt_ok cs w) os -> NoDup (map fst os) ->
   (forall k, In k (map fst os) -> smem k no = false) ->
-  exists st', fold_left (read_line cs) (map opt_line os) (Ok st) = Ok st' /\ rinv st' Nd sn (no ++ os).
+  exists st', fold_left (read_line cs) (flat_map (opt_phys w) os) (Ok st) = Ok st' /\ rinv st' Nd sn (no ++ os).
 Proof.
   induction os as [|o r IH]; intros st Nd sn no I F ND Hm.
   - exists st. split; [reflexivity|]. rewrite app_nil_r. exact I.
   - inversion F as [|? ? Fo Fr]; subst. inversion ND as [|? ? Nk NDr]; subst.
-    destruct (read_opt cs st Nd sn no o I Fo (Hm _ (or_introl eq_refl))) as [st1 [R1 I1]].
+    destruct (read_phys cs w st Nd sn no o I Fo (Hm _ (or_introl eq_refl))) as [st1 [R1 I1]].
     destruct (IH st1 Nd sn (no ++ [o])%list I1 Fr NDr) as [st2 [R2 I2]].
     { intros k Hk. destruct o as [k0 x]. rewrite smem_snoc, (Hm k (or_intror Hk)). simpl.
       destruct (String.eqb k k0) eqn:Ek; [|reflexivity].
       apply String.eqb_eq in Ek. subst k. exfalso. apply Nk. exact Hk. }
     exists st2. split.
-    + change (map opt_line (o :: r)) with (opt_line o :: map opt_line r).
-      change (fold_left (read_line cs) (opt_line o :: map opt_line r) (Ok st))
-        with (fold_left (read_line cs) (map opt_line r) (read_line cs (Ok st) (opt_line o))).
-      rewrite R1. exact R2.
+    + cbn [flat_map]. rewrite fold_read_app, R1. exact R2.
     + rewrite <- app_assoc in I2. exact I2.
 Qed.
 
@@ -560,13 +1257,15 @@ Proof.
   - unfold xform in *. destruct cs; [reflexivity|]. unfold mname, lower in *. rewrite !smap_app, Hx, Hmx. reflexivity.
 Qed.
 
-Lemma entry_opts_ok cs w ke : entry_ok cs w ke -> Forall (opt_ok cs) (entry_opts ke).
+Lemma entry_opts_ok cs w ke : entry_ok cs w ke -> Forall (opt_ok cs w) (entry_opts ke).
 Proof.
-  intros [_ [Hk [_ [_ [Hx [Hv [_ [_ Fm]]]]]]]]. unfold entry_opts. constructor.
-  - split; [exact Hk|split; [exact Hx|exact Hv]].
+  intros [_ [Hk [_ [Kn [Hx [Hv [_ Fm]]]]]]]. unfold entry_opts. constructor.
+  - split; [exact Hk|split; [exact Hx|split; [exact Kn|exact Hv]]].
   - rewrite Forall_forall in *. intros o Ho. apply in_map_iff in Ho. destruct Ho as [kv [<- Hkv]].
     destruct (Fm kv Hkv) as [M1 [M2 M3]]. destruct (mname_ok cs _ _ Hk Hx M1 M2) as [A B].
-    split; [exact A|split; [exact B|]]. simpl. destruct (snd kv); [exact (proj1 M3)|exact I].
+    split; [exact A|split; [exact B|split]].
+    + cbn [fst]. unfold mname. destruct M1 as [_ [_ [_ Mn]]]. repeat apply no_nl_app; try assumption; reflexivity.
+    + cbn [fst snd]. destruct (snd kv); exact M3.
 Qed.
 
 Lemma nodup_app_disj {A} (a b : list A) : NoDup (a ++ b) -> forall x, In x a -> ~ In x b.
@@ -587,16 +1286,16 @@ Proof. induction a as [|y r IH]; intros ND; [exact ND|]. simpl in ND. inversion 
 Lemma read_entries cs w es : forall st Nd sn no,
   rinv st Nd sn no -> Forall (entry_ok cs w) es -> NoDup (map fst (exp_opts es)) ->
   (forall k, In k (map fst (exp_opts es)) -> smem k no = false) ->
-  exists st', fold_left (read_line cs) (flat_map entry_lines_of es) (Ok st) = Ok st' /\ rinv st' Nd sn (no ++ exp_opts es).
+  exists st', fold_left (read_line cs) (flat_map (entry_lines_of w) es) (Ok st) = Ok st' /\ rinv st' Nd sn (no ++ exp_opts es).
 Proof.
   induction es as [|ke r IH]; intros st Nd sn no I F ND Hm.
   - exists st. split; [reflexivity|]. simpl. rewrite app_nil_r. exact I.
   - inversion F as [|? ? Fe Fr]; subst.
     change (exp_opts (ke :: r)) with (entry_opts ke ++ exp_opts r)%list in *. rewrite map_app in ND, Hm.
-    destruct (read_opts cs (entry_opts ke) st Nd sn no I (entry_opts_ok cs w ke Fe) (nodup_app_l _ _ ND))
+    destruct (read_opts cs w (entry_opts ke) st Nd sn no I (entry_opts_ok cs w ke Fe) (nodup_app_l _ _ ND))
       as [st1 [R1 I1]].
     { intros k Hk. apply Hm. rewrite in_app_iff. left. exact Hk. }
-    assert (B : exists st1', fold_left (read_line cs) (entry_lines_of ke) (Ok st) = Ok st1' /\
+    assert (B : exists st1', fold_left (read_line cs) (entry_lines_of w ke) (Ok st) = Ok st1' /\
                              rinv st1' Nd sn (no ++ entry_opts ke)).
     { unfold entry_lines_of. rewrite fold_read_app, R1. destruct (e_meta (snd ke)).
       - exists st1. split; [reflexivity|exact I1].
@@ -678,7 +1377,7 @@ Qed.
 
 Lemma entry_names_nodup cs w ke : entry_ok cs w ke -> NoDup (map fst (entry_opts ke)).
 Proof.
-  intros E. pose proof E as [_ [_ [Kc [_ [_ [_ [_ [ND _]]]]]]]]. rewrite names_entry_opts. constructor.
+  intros E. pose proof E as [_ [_ [Kc [_ [_ [_ [ND _]]]]]]]. rewrite names_entry_opts. constructor.
   - intros H. apply in_map_iff in H. destruct H as [mk [Em _]].
     assert (C : has_char colon (mname (e_key (snd ke)) mk) = true).
     { unfold mname, has_char. rewrite !any_app. simpl. apply orb_true_r. }
@@ -712,7 +1411,7 @@ Qed.
 Lemma read_tail cs w r : forall st Nd sn no,
   rinv st Nd sn no -> Forall (section_ok cs w) r ->
   NoDup (map fst (Nd ++ [(sn, no)]) ++ map fst r) ->
-  exists st', fold_left (read_line cs) (tail_lines r) (Ok st) = Ok st' /\
+  exists st', fold_left (read_line cs) (tail_lines w r) (Ok st) = Ok st' /\
               norm_parsed (r_done st') = ((Nd ++ [(sn, no)]) ++ exp_norm r)%list.
 Proof.
   induction r as [|ns r IH]; intros st Nd sn no I F ND.
@@ -738,7 +1437,7 @@ Qed.
 
 Lemma read_view cs w ns r :
   view_ok cs w (ns :: r) ->
-  exists st', fold_left (read_line cs) (sect_lines ns ++ tail_lines r) (Ok (RState [] None None 0)) = Ok st' /\
+  exists st', fold_left (read_line cs) (sect_lines w ns ++ tail_lines w r) (Ok (RState [] None None 0)) = Ok st' /\
               norm_parsed (r_done st') = exp_norm (ns :: r).
 Proof.
   intros [ND F]. inversion F as [|? ? Fs Fr]; subst. destruct Fs as [S1 [S2 [S3 S4]]].
@@ -753,124 +1452,85 @@ Proof.
 Qed.
 
 (* ================================================================== the written text, line by line *)
-Lemma ends_nonblank_app a v : v <> EmptyString -> ends_nonblank (a ++ v) = ends_nonblank v.
+Lemma entry_str_lines cs w ke : entry_ok cs w ke -> entry_str w true (snd ke) = join (s1 nl) (entry_lines_of w ke).
 Proof.
-  intros N. induction a as [|x r IH]; [reflexivity|].
-  change (String x r ++ v) with (String x (r ++ v)). cbn [ends_nonblank].
-  destruct (r ++ v) eqn:E; [destruct r; [contradiction|discriminate]|]. exact IH.
-Qed.
-
-Lemma rstrip_cons a r :
-  rstrip (String a r) = match rstrip r with EmptyString => if is_space a then EmptyString else s1 a | r' => String a r' end.
-Proof. reflexivity. Qed.
-
-Lemma rstrip_ends v : rstrip v = v -> v <> EmptyString -> ends_nonblank v = true.
-Proof.
-  induction v as [|a r IH]; [intros _ N; contradiction|]. intros H _.
-  destruct r as [|b r'].
-  - simpl in H. cbn [ends_nonblank]. destruct (is_space a) eqn:Sa; [discriminate|].
-    destruct (Ascii.eqb sp a) eqn:E; [|reflexivity]. apply Ascii.eqb_eq in E. subst a. cbv in Sa. discriminate.
-  - cbn [ends_nonblank]. apply IH; [|discriminate].
-    rewrite rstrip_cons in H. destruct (rstrip (String b r')) eqn:E.
-    + destruct (is_space a); unfold s1 in H; discriminate.
-    + inversion H. reflexivity.
-Qed.
-
-Lemma ends_plain k x : value_ok x -> ends_nonblank (plain_line k x) = true.
-Proof.
-  intros [Vn [_ [Vr _]]]. unfold plain_line. rewrite ends_nonblank_app by (simpl; discriminate).
-  rewrite (ends_nonblank_app " = ") by exact Vn. apply rstrip_ends; assumption.
-Qed.
-
-Lemma fill_wline w k x :
-  key_ok k -> wval_ok x -> String.length (plain_line k x) <= w ->
-  fill w (key_width + 3) (pad_right key_width k ++ " = " ++ x) = wline k x.
-Proof.
-  intros Hk [->|Hv] L.
-  - change (wline k "") with (pad_right key_width k ++ " =").
-    change (pad_right key_width k ++ " = " ++ "") with (pad_right key_width k ++ " = ").
-    replace (pad_right key_width k ++ " = ") with ((pad_right key_width k ++ " =") ++ spaces 1)
-      by (rewrite app_assoc_s; reflexivity).
-    apply fill_fits_trailing.
-    + rewrite ends_nonblank_app by discriminate. reflexivity.
-    + unfold plain_line in L. rewrite app_assoc_s. exact L.
-  - assert (Ew : wline k x = plain_line k x) by (destruct Hv as [Vn _]; destruct x; [contradiction|reflexivity]).
-    rewrite Ew. apply fill_fits; [apply ends_plain; exact Hv|exact L].
-Qed.
-
-Lemma entry_lines_eq cs w ke : entry_ok cs w ke -> entry_lines w true (snd ke) = entry_lines_of ke.
-Proof.
-  intros [_ [Hk [_ [_ [Hx [Hv [L [_ Fm]]]]]]]].
-  unfold entry_lines, entry_lines_of, entry_opts. cbv zeta.
-  assert (E1 : fill w (key_width + 3) (pad_right key_width (e_key (snd ke)) ++ " = " ++ e_val (snd ke))
-               = wline (e_key (snd ke)) (e_val (snd ke))).
-  { apply fill_wline; assumption. }
-  rewrite E1.
-  assert (Emap : map (fun kv : string * option string =>
+  intros E. pose proof (entry_opts_ok cs w ke E) as Fo.
+  unfold entry_str, entry_lines, entry_lines_of. cbv zeta.
+  set (blocks := (map (opt_phys w) (entry_opts ke) ++ match e_meta (snd ke) with [] => [] | _ => [[EmptyString]] end)%list).
+  assert (E1 : (if (true && match e_meta (snd ke) with [] => false | _ => true end)%bool
+                then List.app (fill w (key_width + 3) (pad_right key_width (e_key (snd ke)) ++ " = " ++ e_val (snd ke))
+                               :: map (fun kv : string * option string =>
+                                         match snd kv with
+                                         | None => fill w (key_width + 3) (e_key (snd ke) ++ ":" ++ fst kv)
+                                         | Some v => fill w (key_width + 3)
+                                                       (pad_right key_width (e_key (snd ke) ++ ":" ++ fst kv) ++ " = " ++ v)
+                                         end) (e_meta (snd ke))) [EmptyString]
+                else [fill w (key_width + 3) (pad_right key_width (e_key (snd ke)) ++ " = " ++ e_val (snd ke))])
+               = map (join (s1 nl)) blocks).
+  { unfold blocks, entry_opts. cbv zeta. rewrite map_app. cbn [map]. rewrite !map_map.
+    assert (Em : map (fun kv : string * option string =>
                         match snd kv with
-                        | Some v => fill w (key_width + 3) (pad_right key_width (e_key (snd ke) ++ ":" ++ fst kv) ++ " = " ++ v)
                         | None => fill w (key_width + 3) (e_key (snd ke) ++ ":" ++ fst kv)
+                        | Some v => fill w (key_width + 3) (pad_right key_width (e_key (snd ke) ++ ":" ++ fst kv) ++ " = " ++ v)
                         end) (e_meta (snd ke))
-                 = map opt_line (map (fun kv => (mname (e_key (snd ke)) (fst kv), snd kv)) (e_meta (snd ke)))).
-  { rewrite map_map. apply map_ext_in. intros kv Hkv. rewrite Forall_forall in Fm.
-    destruct (Fm kv Hkv) as [[Mn [Mr Mrest]] [Mx M3]]. unfold opt_line. cbn [fst snd]. destruct (snd kv) as [x|].
-    - destruct M3 as [Vx Lx]. apply (fill_wline w (mname _ _)); [|exact Vx|exact Lx].
-      exact (proj1 (mname_ok cs _ _ Hk Hx (conj Mn (conj Mr Mrest)) Mx)).
-    - apply fill_fits; [|exact M3]. unfold mname. rewrite ends_nonblank_app by (simpl; discriminate).
-      rewrite (ends_nonblank_app ":") by exact Mn. apply rstrip_ends; assumption. }
-  destruct (e_meta (snd ke)) as [|m0 mr]; [reflexivity|].
-  cbn [andb]. rewrite Emap. reflexivity.
+                 = map (fun x => join (s1 nl) (opt_phys w (mname (e_key (snd ke)) (fst x), snd x))) (e_meta (snd ke))).
+    { apply map_ext. intros kv. unfold opt_phys, opt_text. cbn [fst snd].
+      destruct (snd kv); rewrite fill_wlines; reflexivity. }
+    assert (E0 : join (s1 nl) (opt_phys w (e_key (snd ke), Some (e_val (snd ke))))
+                 = fill w (key_width + 3) (pad_right key_width (e_key (snd ke)) ++ " = " ++ e_val (snd ke))) by reflexivity.
+    rewrite Em, E0. destruct (e_meta (snd ke)) as [|m0 mr]; reflexivity. }
+  rewrite E1. rewrite join_concat.
+  - unfold blocks. rewrite concat_app, <- flat_map_concat_map. destruct (e_meta (snd ke)); reflexivity.
+  - unfold blocks. apply Forall_app. split.
+    + rewrite Forall_forall in *. intros l Hl. apply in_map_iff in Hl. destruct Hl as [o [<- Ho]].
+      apply (opt_phys_nonempty cs). apply Fo. exact Ho.
+    + destruct (e_meta (snd ke)); repeat constructor; discriminate.
 Qed.
 
-Lemma join_cons_s sep h l : l <> [] -> join sep (h :: l) = h ++ sep ++ join sep l.
-Proof. destruct l; [contradiction|reflexivity]. Qed.
-
-Lemma join_concat sep ls : Forall (fun l => l <> []) ls -> join sep (map (join sep) ls) = join sep (List.concat ls).
+Lemma entry_lines_nonempty cs w ke : entry_ok cs w ke -> entry_lines_of w ke <> [].
 Proof.
-  induction ls as [|l r IH]; intros F; [reflexivity|]. inversion F; subst.
-  destruct r as [|l2 r2].
-  - simpl. rewrite app_nil_r. reflexivity.
-  - change (map (join sep) (l :: l2 :: r2)) with (join sep l :: map (join sep) (l2 :: r2)).
-    rewrite join_cons_s by discriminate. rewrite IH by assumption.
-    cbn [List.concat]. rewrite (join_app_s sep l); [reflexivity|assumption|].
-    inversion H2; subst. destruct l2; [contradiction|discriminate].
+  intros E. pose proof (entry_opts_ok cs w ke E) as Fo. unfold entry_lines_of, entry_opts in *. cbn [flat_map].
+  inversion Fo as [|? ? F1 _]; subst. pose proof (opt_phys_nonempty cs w _ F1) as N.
+  destruct (opt_phys w (e_key (snd ke), Some (e_val (snd ke)))); [contradiction|discriminate].
 Qed.
 
-Lemma section_str_lines cs w ns : section_ok cs w ns -> section_str w true ns = join (s1 nl) (sect_lines ns).
+Lemma section_str_lines cs w ns : section_ok cs w ns -> section_str w true ns = join (s1 nl) (sect_lines w ns).
 Proof.
   intros [_ [Ne [_ F]]]. unfold section_str, sect_lines. destruct (snd ns) as [|ke r] eqn:E; [contradiction|].
+  inversion F as [|? ? Fke Fr]; subst.
   rewrite join_cons_s.
   - replace (map (fun ke0 : string * entry => entry_str w true (snd ke0)) (ke :: r))
-      with (map (join (s1 nl)) (map entry_lines_of (ke :: r))).
+      with (map (join (s1 nl)) (map (entry_lines_of w) (ke :: r))).
     + rewrite join_concat.
       * rewrite <- flat_map_concat_map. rewrite !app_assoc_s. reflexivity.
-      * rewrite Forall_forall. intros l Hl. apply in_map_iff in Hl. destruct Hl as [x [<- _]].
-        unfold entry_lines_of, entry_opts. discriminate.
-    + rewrite map_map. apply map_ext_in. intros x Hx. unfold entry_str.
-      rewrite (entry_lines_eq cs w x); [reflexivity|]. rewrite Forall_forall in F. apply F. exact Hx.
-  - cbn [flat_map]. unfold entry_lines_of at 1, entry_opts. discriminate.
+      * rewrite Forall_forall. intros l Hl. apply in_map_iff in Hl. destruct Hl as [x [<- Hx]].
+        apply (entry_lines_nonempty cs). rewrite Forall_forall in F. apply F. exact Hx.
+    + rewrite map_map. apply map_ext_in. intros x Hx.
+      rewrite (entry_str_lines cs w x); [reflexivity|]. rewrite Forall_forall in F. apply F. exact Hx.
+  - cbn [flat_map]. pose proof (entry_lines_nonempty cs w ke Fke) as N.
+    destruct (entry_lines_of w ke); [contradiction|discriminate].
 Qed.
 
-Fixpoint mid_lines (v : sections) : list string :=
+Fixpoint mid_lines (w : nat) (v : sections) : list string :=
   match v with
   | [] => []
-  | ns :: r => (EmptyString :: EmptyString :: sect_lines ns ++ mid_lines r)%list
+  | ns :: r => (EmptyString :: EmptyString :: sect_lines w ns ++ mid_lines w r)%list
   end.
 
-Lemma tail_mid r : tail_lines r = (mid_lines r ++ [EmptyString])%list.
+Lemma tail_mid w r : tail_lines w r = (mid_lines w r ++ [EmptyString])%list.
 Proof. induction r as [|ns r IH]; [reflexivity|]. simpl. rewrite IH, <- app_assoc. reflexivity. Qed.
 
 Definition sep3 : string := s1 nl ++ s1 nl ++ s1 nl.
 
-Lemma join_sections r : forall ns,
-  join sep3 (map (fun x => join (s1 nl) (sect_lines x)) (ns :: r)) = join (s1 nl) (sect_lines ns ++ mid_lines r).
+Lemma join_sections w r : forall ns,
+  join sep3 (map (fun x => join (s1 nl) (sect_lines w x)) (ns :: r)) = join (s1 nl) (sect_lines w ns ++ mid_lines w r).
 Proof.
   induction r as [|ns2 r2 IH]; intros ns.
   - simpl. rewrite app_nil_r. reflexivity.
-  - change (map (fun x => join (s1 nl) (sect_lines x)) (ns :: ns2 :: r2))
-      with (join (s1 nl) (sect_lines ns) :: map (fun x => join (s1 nl) (sect_lines x)) (ns2 :: r2)).
+  - change (map (fun x => join (s1 nl) (sect_lines w x)) (ns :: ns2 :: r2))
+      with (join (s1 nl) (sect_lines w ns) :: map (fun x => join (s1 nl) (sect_lines w x)) (ns2 :: r2)).
     rewrite join_cons_s by discriminate. rewrite IH.
-    cbn [mid_lines]. rewrite (join_app_s (s1 nl) (sect_lines ns)); [|unfold sect_lines; discriminate|discriminate].
+    cbn [mid_lines]. rewrite (join_app_s (s1 nl) (sect_lines w ns)); [|unfold sect_lines; discriminate|discriminate].
     rewrite (join_cons_s (s1 nl) EmptyString) by discriminate.
     rewrite (join_cons_s (s1 nl) EmptyString) by (unfold sect_lines; discriminate).
     unfold sep3. rewrite !app_assoc_s. reflexivity.
@@ -878,55 +1538,32 @@ Qed.
 
 Lemma nonempty_sections cs w v :
   Forall (section_ok cs w) v ->
-  filter nonempty (map (section_str w true) v) = map (fun x => join (s1 nl) (sect_lines x)) v.
+  filter nonempty (map (section_str w true) v) = map (fun x => join (s1 nl) (sect_lines w x)) v.
 Proof.
   induction v as [|ns r IH]; intros F; [reflexivity|]. inversion F; subst.
   cbn [map filter]. rewrite (section_str_lines cs w ns H1), (IH H2).
   unfold sect_lines at 1. rewrite join_cons_s; [reflexivity|].
-  destruct H1 as [_ [Ne _]]. destruct (snd ns); [contradiction|]. cbn [flat_map]. unfold entry_lines_of at 1, entry_opts. discriminate.
+  destruct H1 as [_ [Ne [_ Fe]]]. destruct (snd ns) as [|ke0 r0]; [contradiction|]. cbn [flat_map].
+  inversion Fe as [|? ? Fk _]; subst. pose proof (entry_lines_nonempty cs w ke0 Fk) as N.
+  destruct (entry_lines_of w ke0); [contradiction|discriminate].
 Qed.
 
 Lemma as_str_lines cs w c ns r :
   c_view c = ns :: r -> view_ok cs w (ns :: r) ->
-  as_str w true c = join (s1 nl) (sect_lines ns ++ mid_lines r).
+  as_str w true c = join (s1 nl) (sect_lines w ns ++ mid_lines w r).
 Proof.
   intros E [_ F]. unfold as_str. rewrite E, (nonempty_sections cs w _ F). apply join_sections.
 Qed.
 
-Lemma no_nl_app a b : no_nl a -> no_nl b -> no_nl (a ++ b).
-Proof. unfold no_nl, has_char. intros Ha Hb. rewrite any_app, Ha, Hb. reflexivity. Qed.
-
-Lemma no_nl_spaces n : no_nl (spaces n).
-Proof. unfold no_nl, has_char. apply any_spaces. reflexivity. Qed.
-
-Lemma no_nl_plain k x : no_nl k -> no_nl x -> no_nl (plain_line k x).
+Lemma entry_lines_no_nl cs w ke : entry_ok cs w ke -> Forall no_nl (entry_lines_of w ke).
 Proof.
-  intros Hk Hx. unfold plain_line, pad_right. repeat apply no_nl_app; try assumption; try reflexivity. apply no_nl_spaces.
-Qed.
-
-Lemma no_nl_wline k x : no_nl k -> no_nl x -> no_nl (wline k x).
-Proof.
-  intros Hk Hx. destruct x; [|apply no_nl_plain; assumption].
-  unfold wline, pad_right. repeat apply no_nl_app; try assumption; try reflexivity. apply no_nl_spaces.
-Qed.
-
-Lemma wval_no_nl x : wval_ok x -> no_nl x.
-Proof. intros [->|[_ [_ [_ H]]]]; [reflexivity|exact H]. Qed.
-
-Lemma entry_lines_no_nl cs w ke : entry_ok cs w ke -> Forall no_nl (entry_lines_of ke).
-Proof.
-  intros [_ [_ [_ [Kn [_ [Hv [_ [_ Fm]]]]]]]]. pose proof (wval_no_nl _ Hv) as Vn. unfold entry_lines_of, entry_opts.
-  apply Forall_app. split.
-  - cbn [map]. constructor; [unfold opt_line; cbn [fst snd]; apply no_nl_wline; assumption|].
-    rewrite map_map. rewrite Forall_forall in *. intros l Hl. apply in_map_iff in Hl. destruct Hl as [kv [<- Hkv]].
-    destruct (Fm kv Hkv) as [[_ [_ [_ Mn]]] [_ M3]]. unfold opt_line. cbn [fst snd].
-    assert (Nm : no_nl (mname (e_key (snd ke)) (fst kv))).
-    { unfold mname. repeat apply no_nl_app; try assumption; reflexivity. }
-    destruct (snd kv) as [x|]; [|exact Nm]. apply no_nl_wline; [exact Nm|]. destruct M3 as [Xv _]. exact (wval_no_nl _ Xv).
+  intros E. pose proof (entry_opts_ok cs w ke E) as Fo. unfold entry_lines_of. apply Forall_app. split.
+  - rewrite Forall_forall in *. intros l Hl. apply in_flat_map in Hl. destruct Hl as [o [Ho Hl]].
+    pose proof (wlines_no_nl w (opt_text o) (opt_text_no_nl cs w o (Fo o Ho))) as G. rewrite Forall_forall in G. apply G. exact Hl.
   - destruct (e_meta (snd ke)); repeat constructor.
 Qed.
 
-Lemma sect_lines_no_nl cs w ns : section_ok cs w ns -> Forall no_nl (sect_lines ns).
+Lemma sect_lines_no_nl cs w ns : section_ok cs w ns -> Forall no_nl (sect_lines w ns).
 Proof.
   intros [[_ [_ [_ [_ Sn]]]] [_ [_ F]]]. unfold sect_lines. constructor.
   - apply (no_nl_app "["); [reflexivity|]. apply no_nl_app; [exact Sn|reflexivity].
@@ -934,7 +1571,7 @@ Proof.
     pose proof (entry_lines_no_nl cs w ke (F ke Hke)) as G. rewrite Forall_forall in G. apply G. exact Hl.
 Qed.
 
-Lemma mid_lines_no_nl cs w r : Forall (section_ok cs w) r -> Forall no_nl (mid_lines r).
+Lemma mid_lines_no_nl cs w r : Forall (section_ok cs w) r -> Forall no_nl (mid_lines w r).
 Proof.
   induction r as [|ns r IH]; intros F; [constructor|]. inversion F; subst. cbn [mid_lines].
   constructor; [reflexivity|]. constructor; [reflexivity|]. apply Forall_app. split; [eapply sect_lines_no_nl; eassumption|auto].
@@ -942,12 +1579,12 @@ Qed.
 
 Lemma text_lines cs w c ns r :
   c_view c = ns :: r -> view_ok cs w (ns :: r) ->
-  split_on nl (as_str w true c ++ s1 nl) = (sect_lines ns ++ tail_lines r)%list.
+  split_on nl (as_str w true c ++ s1 nl) = (sect_lines w ns ++ tail_lines w r)%list.
 Proof.
   intros E V. rewrite (as_str_lines cs w c ns r E V). destruct V as [_ F]. inversion F; subst.
   rewrite tail_mid, app_assoc.
-  replace (join (s1 nl) (sect_lines ns ++ mid_lines r) ++ s1 nl)
-    with (join (s1 nl) ((sect_lines ns ++ mid_lines r) ++ [EmptyString])).
+  replace (join (s1 nl) (sect_lines w ns ++ mid_lines w r) ++ s1 nl)
+    with (join (s1 nl) ((sect_lines w ns ++ mid_lines w r) ++ [EmptyString])).
   - apply split_join.
     + unfold sect_lines. discriminate.
     + apply Forall_app. split; [|repeat constructor].
@@ -1193,21 +1830,13 @@ Proof.
   unfold exp_items in Hu. apply in_flat_map in Hu. destruct Hu as [ns [Hns Hu]].
   apply in_map_iff in Hu. destruct Hu as [ke [<- Hke]]. cbn [res_map]. f_equal. unfold mk_upd. cbn. f_equal.
   apply norm_meta_id. rewrite Forall_forall in F. destruct (F ns Hns) as [_ [_ [_ Fe]]].
-  rewrite Forall_forall in Fe. destruct (Fe ke Hke) as [_ [_ [_ [_ [_ [_ [_ [ND _]]]]]]]]. exact ND.
+  rewrite Forall_forall in Fe. destruct (Fe ke Hke) as [_ [_ [_ [_ [_ [_ [ND _]]]]]]]. exact ND.
 Qed.
 
 (* ================================================================== the batch of updates and the rebuilt view *)
 Definition upd_entry (u : upd) : entry := Entry (u_key u) (u_val u) (src_of (u_src u) (u_prof u)) (u_meta u).
 Definition build (ps : sections) (us : list upd) : sections :=
   fold_left (fun ps u => set_entry ps (u_sec u) (u_key u) (upd_entry u)) us ps.
-
-Lemma aset_aset {K V} (eqb : K -> K -> bool) (spec : forall a b, eqb a b = true <-> a = b) (l : list (K * V)) k x y :
-  aset eqb (aset eqb l k x) k y = aset eqb l k y.
-Proof.
-  induction l as [|[k0 v0] r IH]; simpl.
-  - rewrite (proj2 (spec k k) eq_refl). reflexivity.
-  - destruct (eqb k k0) eqn:E; simpl; rewrite E; [reflexivity|]. rewrite IH. reflexivity.
-Qed.
 
 Lemma with_raw_twice c a b : with_raw (with_raw c a) b = with_raw c b.
 Proof. destruct c; reflexivity. Qed.
